@@ -19,14 +19,19 @@ NoteNames == {"A", "B", "C", "D", "E", "F", "G"}
 ModStr == {"n", "#", "b", "x", "bb"}
 ModVal(m) == CASE m = "n" -> 0 [] m = "#" -> 1 [] m = "b" -> -1 [] m = "x" -> 2 [] m = "bb" -> -2
 Fsd(n, d, t, comps) == [num |-> n, den |-> d, tdiv |-> t, comps |-> comps]     \* tdiv 0 = none; comps = <<>> or seq of <<n, d, t>>
-FsdSimple == {Fsd(0, 1, 0, <<>>), Fsd(1, 4, 0, <<>>), Fsd(3, 8, 0, <<>>), Fsd(1, 8, 3, <<>>), Fsd(2, 16, 0, <<>>), Fsd(1, 4, 5, <<>>),
+FsdSmall == {Fsd(0, 1, 0, <<>>), Fsd(1, 4, 0, <<>>), Fsd(3, 8, 0, <<>>), Fsd(1, 8, 3, <<>>), Fsd(2, 16, 0, <<>>), Fsd(1, 4, 5, <<>>),
               Fsd(7, 32, 0, <<>>), Fsd(1, 1, 0, <<>>), Fsd(5, 1, 0, <<>>), Fsd(1, 12, 0, <<>>)}
+\* the largest numerator and denominator the class keeps exact (bound_integers(1024) replaces larger ones only): in the
+\* round trips of lines, not in the sums (a sum whose exact denominator exceeds the bound is not a value the class can hold)
+FsdBound == {Fsd(1, 1024, 0, <<>>), Fsd(3, 1024, 0, <<>>), Fsd(1, 1024, 3, <<>>), Fsd(1023, 1024, 0, <<>>), Fsd(1024, 1, 0, <<>>)}
+FsdSimple == FsdSmall \cup FsdBound
 CompVal(x) == R(x[1], x[2] * (IF x[3] = 0 THEN 1 ELSE x[3]))
 RECURSIVE SumComps(_)
 SumComps(s) == IF Len(s) = 0 THEN <<0, 1>> ELSE RAdd(CompVal(Head(s)), SumComps(Tail(s)))
 FsdValue(f) == IF Len(f.comps) > 0 THEN SumComps(f.comps) ELSE CompVal(<<f.num, f.den, f.tdiv>>)
 FsdSums == {Fsd(3, 8, 0, << <<1, 4, 0>>, <<1, 8, 0>> >>), Fsd(7, 16, 0, << <<1, 4, 0>>, <<1, 8, 0>>, <<1, 16, 0>> >>),
             Fsd(7, 24, 0, << <<1, 4, 0>>, <<1, 8, 3>> >>)}
+FsdSumsBound == {Fsd(257, 1024, 0, << <<1, 4, 0>>, <<1, 1024, 0>> >>)}
 Beats4 == {0, 5000, 10000, 12500, 255000, 1070000, -5000, 3333, 16667}      \* beat times in 1/10000 (four decimals)
 AttrLists == {<<>>, <<"s">>, <<"s", "stacc">>, <<"v1">>, <<"staff1", "v2", "fermata">>, <<"arp">>, <<"grace">>}
 
@@ -36,8 +41,8 @@ SnoteBase == [anchor |-> "n1", note_name |-> "C", modifier |-> "n", octave |-> 4
 NoteBase == [id |-> "n1", note_name |-> "C", modifier |-> "n", octave |-> 4, onset |-> 1000, offset |-> 1500, adj_offset |-> 1700,
              velocity |-> 64, channel |-> 0, track |-> 0]
 Vary(base, S) == UNION {{[base EXCEPT ![f] = v] : v \in S[f]} : f \in DOMAIN S}
-Snotes == Vary(SnoteBase, [anchor |-> Ids, measure |-> {0, 1, 7, 36, 120}, beat |-> {1, 2, 3, 4, 6}, offset |-> FsdSimple \cup FsdSums,
-                           duration |-> FsdSimple \cup FsdSums, onset_in_beats |-> Beats4, offset_in_beats |-> Beats4, attrs |-> AttrLists])
+Snotes == Vary(SnoteBase, [anchor |-> Ids, measure |-> {0, 1, 7, 36, 120}, beat |-> {1, 2, 3, 4, 6}, offset |-> FsdSimple \cup FsdSums \cup FsdSumsBound,
+                           duration |-> FsdSimple \cup FsdSums \cup FsdSumsBound, onset_in_beats |-> Beats4, offset_in_beats |-> Beats4, attrs |-> AttrLists])
             \cup {[SnoteBase EXCEPT !.note_name = nn, !.modifier = m, !.octave = o] : nn \in NoteNames, m \in ModStr, o \in {0, 3, 4, 8}}
             \cup {[SnoteBase EXCEPT !.rest = 1, !.note_name = "R"]}
 Notes == Vary(NoteBase, [id |-> Ids, onset |-> {0, 1, 999, 123456}, offset |-> {1500, 1501, 999999}, adj_offset |-> {1500, 1700, 5000},
@@ -48,7 +53,7 @@ Stimes == Vary([measure |-> 1, beat |-> 1, offset |-> Fsd(0, 1, 0, <<>>), onset_
                [measure |-> {0, 1, 7, 36}, beat |-> {1, 2, 4}, offset |-> FsdSimple, onset_in_beats |-> Beats4,
                 annotation |-> {<<"beat">>, <<"downbeat", "beat">>, <<"other">>}])
 Ptimes == {<<0>>, <<480>>, <<1, 2, 3>>, <<100000, 100020>>}
-FsdPairs == (FsdSimple \cup FsdSums) \X FsdSimple
+FsdPairs == (FsdSmall \cup FsdSums) \X FsdSmall
 
 Cases == {[kind |-> "snote", rec |-> s] : s \in Snotes} \cup {[kind |-> "note", rec |-> n] : n \in Notes}
            \cup {[kind |-> "pedal", rec |-> p] : p \in Pedals} \cup {[kind |-> "stime", rec |-> s] : s \in Stimes}
